@@ -41,12 +41,14 @@ CONTRACTS = {
     "AtLeast.compound_propositions": {"props": ["C01", "C03", "C04", "C05", "C08", "C10"], "why": "children that are not puan.variable"},
     "AtLeast.atomic_propositions": {"props": ["C01", "C03", "C04", "C05", "C08", "C10"], "why": "children that are puan.variable"},
     "AtLeast.flatten": {"props": ["C01", "C03", "C04", "C05", "C10", "C14", "C15"], "why": "self + all descendants, de-duplicated, sorted"},
+    "AtLeast._occurrences": {"props": ["C01", "C03", "C05", "C08", "C10", "C16"], "optional": True,
+                             "why": "self + all descendants, one entry per occurrence, nothing de-duplicated (what the definition checks of errors() range over)"},
     "AtLeast._dependencies": {"props": ["C01", "C03", "C05", "C08", "C10", "C16"], "why": "(premise of every property stated over validated models) complete edge relation: (id, ids of all children) for every compound"},
     "AtLeast.errors": {"props": ["C01", "C03", "C05", "C08", "C10", "C16"],
                        "why": "(which models count as validated is the premise of C01/C03/C05/C08/C16) 4 labels <-> 4 checks; cycle check = TopologicalSorter(dict(_dependencies())).prepare() with exception => True; "
                               "definition-uniqueness checks compare the number of distinct definition keys with the number of distinct ids "
                               "(keys are holes judged by rule E7); duplicate edge check over (parent id, child id)"},
-    "AtLeast.__hash__": {"props": ["C01", "C03", "C05", "C08", "C10", "C16"], "why": "(premise: validation key) hash over (variable, sign, value, children): the definition key used by check #3"},
+    "AtLeast.__hash__": {"props": [], "why": "(no longer an obligation: since fix 720688a errors() compares exact definition tuples over every occurrence; the hash only has to be a function of the object's fields, rule E7.hash-identity of C10) hash over (variable, sign, value, children): the definition key used by check #3"},
     "AtLeast.__lt__": {"props": ["C10"], "why": "ordering by id"},
     "AtLeast._id_generator": {"props": ["C10", "C16"], "why": "generated id = prefix + sha256(children ids + value + sign): deterministic in the definition"},
     "AtLeast.__eq__": {"props": ["C09", "C10"], "why": "equality used by ==; (its adequacy as a de-duplication key is judged by E7 under C10)"},
@@ -140,6 +142,9 @@ class AtLeast(puan.Proposition):
             self.atomic_propositions,
         )))
 
+    def _occurrences(self):
+        return [self] + list(self.atomic_propositions) + [y for c in self.compound_propositions for y in c._occurrences()]
+
     def _dependencies(self):
         return [(self.id, [x.id for x in self.atomic_propositions] + [x.id for x in self.compound_propositions])] + \
             list(itertools.chain.from_iterable(c._dependencies() for c in self.compound_propositions))
@@ -171,14 +176,15 @@ class AtLeast(puan.Proposition):
             [
                 # 1. circular dependencies: any exception of the topological sorter means "cyclic"
                 __try__(not (None == graphlib.TopologicalSorter(dict(self._dependencies())).prepare()), True),
-                # 2. every id has one variable definition: #distinct definitions == #distinct ids
+                # 2. every id has one variable definition: #distinct definitions == #distinct ids, over EVERY occurrence
+                #    (flatten() keeps one object per id and cannot be the source of a definition check)
                 not (len(set(__hole_key2__(v) for v in itertools.chain(
-                        (x for x in self.flatten() if issubclass(x.__class__, puan.variable)),
-                        (x.variable for x in self.flatten() if not issubclass(x.__class__, puan.variable)))))
-                     == len(set(x.id for x in self.flatten()))),
+                        (x for x in self._occurrences() if issubclass(x.__class__, puan.variable)),
+                        (x.variable for x in self._occurrences() if not issubclass(x.__class__, puan.variable)))))
+                     == len(set(x.id for x in self._occurrences()))),
                 # 3. every compound id has one compound definition
-                not (len(set(__hole_key3__(c) for c in self.flatten() if not issubclass(c.__class__, puan.variable)))
-                     == len(set(c.id for c in self.flatten() if not issubclass(c.__class__, puan.variable)))),
+                not (len(set(__hole_key3__(c) for c in self._occurrences() if not issubclass(c.__class__, puan.variable)))
+                     == len(set(c.id for c in self._occurrences() if not issubclass(c.__class__, puan.variable)))),
                 # 4. no parent lists the same child twice
                 any(n >= 2 for n in Counter(itertools.chain.from_iterable(
                     [__hole_key4__(x, y) for y in x.propositions]
